@@ -414,9 +414,18 @@ open Edzed.Cron Edzed.Gen.TrCron
 
 /-- `utils.flag.Flag`: OR / test-and-clear / set / clear / truth value -/
 theorem translated_cron_flag_is_model (v o : Bool) :
+    (Flag_init o).1 = o ∧
     Flag_OR v o = (v || o, v || o) ∧ Flag_test_clear v = (false, v) ∧ Flag_set v o = (o, o) ∧
     Flag_set v = (true, true) ∧ Flag_clear v = (false, false) ∧ Flag_bool v = (v, v) := by
   cases v <;> cases o <;> decide
+
+/-- the numeric constants under the names `blocklib/cron.py` uses (`_TT_OK`, `_TT_WARNING`, `_TT_ERROR`,
+    `SEC_PER_HOUR/MIN/DAY` as found in ITS namespace) are the extracted ones -/
+theorem translated_cron_constants_are_extracted :
+    ttOk * 1000000 = (Gen.cronTtOkUs : Rat) ∧ ttWarning * 1000000 = (Gen.cronTtWarningUs : Rat) ∧
+    ttError * 1000000 = (Gen.cronTtErrorUs : Rat) ∧ secPerHour = (Gen.secPerHour : Rat) ∧
+    secPerMin = (Gen.secPerMin : Rat) ∧ secPerDay = (Gen.secPerDay : Rat) := by
+  decide +kernel
 
 /-- `Cron.add_block` IS the model's `Table.add`, and asks for a reload iff the key is new and not a full hour -/
 theorem translated_cron_add_block_is_model (tz : Nat → Except Exc Nat) (compat : Nat → Bool) (tb : Table)
@@ -534,9 +543,9 @@ variable {σ T DT B : Type}
 /-- the statements before `while True:`: the overhead estimate starts at `_TT_OK`, a reload is pending (it also
     initialises the index), no reset, no short sleep -/
 theorem translated_cron_init_is_model [Inhabited T] [Inhabited DT] :
-    (mtInit : MtLocals T DT).overhead = ttOk ∧ (mtInit : MtLocals T DT).reload = true ∧
-    (mtInit : MtLocals T DT).reset_ = false ∧ (mtInit : MtLocals T DT).short_sleep = false ∧
-    (mtInit : MtLocals T DT).index = none := ⟨rfl, rfl, rfl, rfl, rfl⟩
+    (mtInit : MtLocals T DT).v0 = ttOk ∧ (mtInit : MtLocals T DT).v2 = true ∧
+    (mtInit : MtLocals T DT).v1 = false ∧ (mtInit : MtLocals T DT).v3 = false ∧
+    (mtInit : MtLocals T DT).v6 = none := ⟨rfl, rfl, rfl, rfl, rfl⟩
 
 /-- the beginning of a pass IS `refHead`: reload → timetable rebuilt from `_SET24` ∪ the CURRENT keys, index
     forgotten; ONE clock reading; unknown index → `bisect_left` for that reading and ALL current clients
@@ -557,8 +566,8 @@ theorem translated_cron_tail_is_model (P : MtPrims σ T DT B) (L : MtLocals T DT
 /-- the loop itself: steps 0, 1, 2 in this order, `break` and exhaustion both lead to the tail -/
 theorem translated_cron_loop_is_model (P : MtPrims σ T DT B) (L : MtLocals T DT) (w : σ) :
     mtFor1 P (List.range 3) L w =
-      refBody P (fun L w => refBody P (fun L w => refBody P (refTail P) (refTail P) { L with step_ := 2 } w)
-        (refTail P) { L with step_ := 1 } w) (refTail P) { L with step_ := 0 } w := by
+      refBody P (fun L w => refBody P (fun L w => refBody P (refTail P) (refTail P) { L with v10 := 2 } w)
+        (refTail P) { L with v10 := 1 } w) (refTail P) { L with v10 := 0 } w := by
   have e : List.range 3 = [0, 1, 2] := by decide
   rw [e]
   simp only [mtFor1, body_is_ref]
@@ -569,25 +578,25 @@ theorem translated_cron_loop_is_model (P : MtPrims σ T DT B) (L : MtLocals T DT
     it is when the reset is processed, each block gets the last reading, the index is forgotten (so that the next
     pass re-positions it) and the pass ends -/
 theorem translated_cron_reset_recalculates_every_client (P : MtPrims σ T DT B) (L : MtLocals T DT) (w : σ)
-    (h : L.reset_ = true) :
+    (h : L.v1 = true) :
     mtAfter1 P L w =
-      .next { L with reset_ := false, index := none } (recalcAll P (P.allClients w) L.nowdt w) := by
+      .next { L with v1 := false, v6 := none } (recalcAll P (P.allClients w) L.v7 w) := by
   rw [tail_is_ref]; unfold refTail; simp [h]
 
 /-- **the wake-up set is read after the sleep returned**: the blocks recalculated at an alarm are those
     registered for `wakeup` in the world `w` in which the sleep loop ended (not one remembered from before), with
     the reading taken after the sleep; then the index advances cyclically -/
 theorem translated_cron_wakeup_set_read_after_sleep (P : MtPrims σ T DT B) (L : MtLocals T DT) (w : σ) (i : Nat)
-    (h1 : L.reset_ = false) (h2 : L.reload = false) (h3 : L.index = some i) :
+    (h1 : L.v1 = false) (h2 : L.v2 = false) (h3 : L.v6 = some i) :
     mtAfter1 P L w =
-      .next { L with index := some ((i + 1) % L.tlen) }
-        (if P.hasAlarm w L.wakeup then recalcAll P (P.clientsAt w L.wakeup) L.nowdt w else w) := by
+      .next { L with v6 := some ((i + 1) % L.v5) }
+        (if P.hasAlarm w L.v9 then recalcAll P (P.clientsAt w L.v9) L.v7 w else w) := by
   rw [tail_is_ref]; unfold refTail; simp [h1, h2, h3]
 
 /-- a reload request that arrived during the sleep ends the pass at once: nothing is recalculated, the index
     is kept (the next pass rebuilds the timetable) -/
 theorem translated_cron_pending_reload_ends_pass (P : MtPrims σ T DT B) (L : MtLocals T DT) (w : σ)
-    (h1 : L.reset_ = false) (h2 : L.reload = true) :
+    (h1 : L.v1 = false) (h2 : L.v2 = true) :
     mtAfter1 P L w = .next L w := by
   rw [tail_is_ref]; unfold refTail; simp [h1, h2]
 
@@ -595,9 +604,9 @@ theorem translated_cron_pending_reload_ends_pass (P : MtPrims σ T DT B) (L : Mt
     that contains what it should), and a pass with a pending reload is a pass without one from that timetable
     with the index forgotten -/
 theorem translated_cron_reload_rebuilds_timetable (P : MtPrims σ T DT B) (L : MtLocals T DT) (w : σ)
-    (hs : ∀ a b x, x ∈ P.sortedUnion a b ↔ x ∈ a ∨ x ∈ b) (h : L.reload = true) :
+    (hs : ∀ a b x, x ∈ P.sortedUnion a b ↔ x ∈ a ∨ x ∈ b) (h : L.v2 = true) :
     let tt := P.sortedUnion P.set24 (P.alarmKeys w)
-    mtStep P L w = mtStep P { L with reload := false, timetable := tt, tlen := tt.length, index := none } w ∧
+    mtStep P L w = mtStep P { L with v2 := false, v4 := tt, v5 := tt.length, v6 := none } w ∧
     ∀ t, (t ∈ P.set24 ∨ t ∈ P.alarmKeys w) ↔ t ∈ tt := by
   refine ⟨?_, fun t => (hs _ _ t).symm⟩
   rw [head_is_ref, head_is_ref]; unfold refHead; simp [h]
@@ -606,10 +615,10 @@ theorem translated_cron_reload_rebuilds_timetable (P : MtPrims σ T DT B) (L : M
     `bisect_left(timetable, reading) % tlen` and ALL clients registered after that clock read are recalculated
     with the same reading before anything else happens -/
 theorem translated_cron_resync_uses_one_reading (P : MtPrims σ T DT B) (L : MtLocals T DT) (w : σ)
-    (h1 : L.reload = false) (h2 : L.index = none) :
+    (h1 : L.v2 = false) (h2 : L.v6 = none) :
     mtStep P L w =
-      refWake P { L with nowdt := (P.dtnow w).1, nowt := P.timeOf (P.dtnow w).1,
-                         index := some (P.bisectLeft L.timetable (P.timeOf (P.dtnow w).1) % L.tlen) }
+      refWake P { L with v7 := (P.dtnow w).1, v8 := P.timeOf (P.dtnow w).1,
+                         v6 := some (P.bisectLeft L.v4 (P.timeOf (P.dtnow w).1) % L.v5) }
         (recalcAll P (P.allClients (P.dtnow w).2) (P.dtnow w).1 (P.dtnow w).2) := by
   rw [head_is_ref]; unfold refHead; simp [h1, h2]
 
@@ -617,39 +626,39 @@ theorem translated_cron_resync_uses_one_reading (P : MtPrims σ T DT B) (L : MtL
     more than `_TT_ERROR`, the loop is left with `reset` set and the overhead estimate untouched -/
 theorem translated_cron_jump_is_detected (P : MtPrims σ T DT B)
     (next brk : MtLocals T DT → σ → Res (MtLocals T DT) σ) (L : MtLocals T DT) (w : σ)
-    (hc : L.step_ > 1 ∨ secondsUntil P L.wakeup L.nowt < 0)
-    (hj : ratAbs (secondsUntil P L.wakeup L.nowt) > ttError) :
+    (hc : L.v10 > 1 ∨ secondsUntil P L.v9 L.v8 < 0)
+    (hj : ratAbs (secondsUntil P L.v9 L.v8) > ttError) :
     mtFor1Body P next brk L w =
-      brk { L with sleeptime := secondsUntil P L.wakeup L.nowt,
-                   diff := ratAbs (secondsUntil P L.wakeup L.nowt), reset_ := true } w := by
+      brk { L with v11 := secondsUntil P L.v9 L.v8,
+                   v12 := ratAbs (secondsUntil P L.v9 L.v8), v1 := true } w := by
   rw [body_is_ref]; unfold refBody refCheck
-  cases hr : L.reset_ <;> simp [hc, hj, hr]
+  cases hr : L.v1 <;> simp [hc, hj, hr]
 
 /-- still early at step 2 (after the additional short sleep) is a clock problem as well -/
 theorem translated_cron_early_at_step2_resets (P : MtPrims σ T DT B)
     (next brk : MtLocals T DT → σ → Res (MtLocals T DT) σ) (L : MtLocals T DT) (w : σ)
-    (h2 : L.step_ = 2) (he : secondsUntil P L.wakeup L.nowt > 0) :
+    (h2 : L.v10 = 2) (he : secondsUntil P L.v9 L.v8 > 0) :
     mtFor1Body P next brk L w =
-      brk { L with sleeptime := secondsUntil P L.wakeup L.nowt,
-                   diff := ratAbs (secondsUntil P L.wakeup L.nowt), reset_ := true } w := by
+      brk { L with v11 := secondsUntil P L.v9 L.v8,
+                   v12 := ratAbs (secondsUntil P L.v9 L.v8), v1 := true } w := by
   rw [body_is_ref]; unfold refBody refCheck
-  cases hr : L.reset_ <;> simp [h2, he, hr]
+  cases hr : L.v1 <;> simp [h2, he, hr]
 
 /-- **the overhead estimate**: at step 1, after a long sleep that ended more than `_TT_OK` (but not more than
     `_TT_ERROR`) late, the estimate is LOWERED by half of (lateness − `_TT_OK`/2) … wait: `s` is negative when
     late, so `overhead − (s + _TT_OK/2)/2` grows; the alarm is then processed -/
 theorem translated_cron_overhead_estimate (P : MtPrims σ T DT B)
     (next brk : MtLocals T DT → σ → Res (MtLocals T DT) σ) (L : MtLocals T DT) (w : σ)
-    (h1 : L.step_ = 1) (hs : L.short_sleep = false) (hr : L.reset_ = false)
-    (hl : secondsUntil P L.wakeup L.nowt < -ttOk) (hl0 : secondsUntil P L.wakeup L.nowt < 0)
-    (hj : ¬ ratAbs (secondsUntil P L.wakeup L.nowt) > ttError) :
+    (h1 : L.v10 = 1) (hs : L.v3 = false) (hr : L.v1 = false)
+    (hl : secondsUntil P L.v9 L.v8 < -ttOk) (hl0 : secondsUntil P L.v9 L.v8 < 0)
+    (hj : ¬ ratAbs (secondsUntil P L.v9 L.v8) > ttError) :
     mtFor1Body P next brk L w =
-      brk { L with sleeptime := secondsUntil P L.wakeup L.nowt,
-                   diff := ratAbs (secondsUntil P L.wakeup L.nowt),
-                   overhead := L.overhead - (secondsUntil P L.wakeup L.nowt + ttOk / 2) * (1 / 2) } w := by
+      brk { L with v11 := secondsUntil P L.v9 L.v8,
+                   v12 := ratAbs (secondsUntil P L.v9 L.v8),
+                   v0 := L.v0 - (secondsUntil P L.v9 L.v8 + ttOk / 2) * (1 / 2) } w := by
   rw [body_is_ref]; unfold refBody refCheck
-  have hz : secondsUntil P L.wakeup L.nowt ≤ 0 := Rat.le_of_lt hl0
-  have hn : ¬ (-ttOk ≤ secondsUntil P L.wakeup L.nowt) := Rat.not_le.mpr hl
+  have hz : secondsUntil P L.v9 L.v8 ≤ 0 := Rat.le_of_lt hl0
+  have hn : ¬ (-ttOk ≤ secondsUntil P L.v9 L.v8) := Rat.not_le.mpr hl
   simp [h1, hs, hr, hl0, hj, hz, hn]
 
 /-! ### (c) `recalc` and `_event_reconfig` -/
@@ -661,6 +670,13 @@ theorem translated_cron_timedate_recalc_is_pred (cal : Calendar) (c : TDCfg) (no
 /-- `TimeSpan.recalc` likewise -/
 theorem translated_cron_timespan_recalc_is_pred (cal : Calendar) (sp : Span) (now : Nat) :
     tsRecalc (tsPrims cal) sp now = timespanPred cal sp now := ts_recalc_is_pred cal sp now
+
+/-- what an absent item of the event data means (the defaults of the keyword-only parameters), and
+    `init_from_value` / `_restore_state` are these very reconfigurations (checked by the translator, which
+    otherwise omits the definitions) -/
+theorem translated_cron_reconfig_defaults :
+    tdReconfigDefaults = [("times", "None"), ("dates", "None"), ("weekdays", "None")] ∧
+    tsReconfigDefaults = [("span", "()")] := ⟨rfl, rfl⟩
 
 /-- `TimeDate._event_reconfig`: besides the table calls, in this order: store the new configuration, `reload()`,
     ONE clock reading, `recalc` with that reading -/
